@@ -928,8 +928,8 @@ V("C10", "supersede_cancel_only_if_done", "fire", "R10.e", (Z, """            se
                 running_task.cancel()
             self_.self._param__private.async_refs[pname] = current_task
 """))
-V("C09", "invalidation_skips_root_params", "fire", "R09.e", (R, "            params[0].owner.param._watch(self._invalidate_current, [p.name for p in params], precedence=-1)",
-  "            params[0].owner.param._watch(self._invalidate_current, [p.name for p in params if p not in self._root._fn_params], precedence=-1)"))
+V("C09", "invalidation_skips_root_params", "fire", "R09.e", (R, "            params[0].owner.param._watch(self._invalidate_current, [p.name for p in params], precedence=-2)",
+  "            params[0].owner.param._watch(self._invalidate_current, [p.name for p in params if p not in self._root._fn_params], precedence=-2)"))
 V("C09", "invalidate_current_early_return_when_dirty", "fire", "R09.f", (R, "        if all(event.obj is self._trigger for event in events):\n            return\n        self._dirty = True",
   "        if self._dirty or all(event.obj is self._trigger for event in events):\n            return\n        self._dirty = True"))
 V("C13", "memo_from_base_memos", "fire", "R13.h", (Z, """        for class_ in classlist(cls):
@@ -1949,3 +1949,6 @@ V("C02", "dynamic_state_attached_to_reference", "fire", "R02.d", (P, """        
             dynamic = callable(val) and not hasattr(val, '_Dynamic_last')
 """, ""))
 V("C13", "class_level_parameter_not_named", "fire", "R13.h", (Z, "                mcs._clear_params_cache()\n                mcs._initialize_parameter(attribute_name,value)", "                mcs._clear_params_cache()\n                mcs.__param_inheritance(attribute_name,value)"))
+V("C09", "invalidation_shares_consumer_precedence", "fire", "R09.p", (R, "params[0].owner.param._watch(self._invalidate_current, [p.name for p in params], precedence=-2)", "params[0].owner.param._watch(self._invalidate_current, [p.name for p in params], precedence=-1)"))
+V("C08", "invalidation_shares_consumer_precedence", "fire", "R08.p", (R, "params[0].owner.param._watch(self._invalidate_obj, fps, precedence=-2)", "params[0].owner.param._watch(self._invalidate_obj, fps, precedence=-1)"))
+V("C09", "benign_invalidation_even_earlier", "benign", None, (R, "params[0].owner.param._watch(self._invalidate_obj, fps, precedence=-2)", "params[0].owner.param._watch(self._invalidate_obj, fps, precedence=-5)"))
